@@ -459,20 +459,38 @@ def run(ctx):
 
     # ---- 4. gfortran on everything written
     written = [f for f in finals if f["wv"] == "ok"]
-    verdicts = compile_texts(ctx, [f["text"] for f in written] + [u["text"] for u in unchecked], "main",
-                             group=[compile_group(x["tree"]) for x in written + unchecked])
-    for f, v in zip(written, verdicts[:len(written)]):
-        f["gf"] = v
-    for u, v in zip(unchecked, verdicts[len(written):]):
-        u["gf"] = v
+    # Programs for which the specification expects a front-end rejection are compiled one per file (slow).  Many
+    # are further instances of the same set of rule violations: only the first few per (stream, key set) are
+    # compiled, the others are counted as redundant and make no claim about the compiler.
+    per_set = ctx.pick(3, 6)
+    seen_sets = {}
+    to_compile = []
+    for x in written + unchecked:
+        x["gf"] = None
+        g = compile_group(x["tree"])
+        if g == 2 and not x.get("source", "").startswith("witness"):
+            ks = ("w" if "wv" in x else "u", tuple(spec.cc_keys(x["tree"])))
+            seen_sets[ks] = seen_sets.get(ks, 0) + 1
+            if seen_sets[ks] > per_set:
+                ctx.hist("gfortran", "not-compiled-redundant-instance")
+                continue
+        to_compile.append((x, g))
+    verdicts = compile_texts(ctx, [x["text"] for x, _ in to_compile], "main", group=[g for _, g in to_compile])
+    for (x, _), v in zip(to_compile, verdicts):
+        x["gf"] = v
+    n_skipped = len(written) + len(unchecked) - len(to_compile)
+    all_written, all_unchecked = written, unchecked
+    unchecked = [u for u in unchecked if u["gf"] is not None]
     # cross-check of the batching on a sample compiled one by one
     srng = ctx.rng("single")
-    sample = srng.sample(written + unchecked, min(len(written) + len(unchecked), ctx.pick(4, 40)))
+    compiled = [x for x in written if x["gf"] is not None] + unchecked
+    sample = srng.sample(compiled, min(len(compiled), ctx.pick(4, 40)))
     for s in sample:
         acc, msg = impl.gfortran(s["text"], str(ctx.scratch / "single"), hashlib.sha1(s["text"].encode()).hexdigest()[:10])
         if acc is not None and acc != s["gf"][0]:
             raise RuntimeError("batched %r and single %r gfortran verdicts differ for\n%s" % (s["gf"], (acc, msg), s["text"]))
-    ctx.log("gfortran: %d written + %d unchecked texts (%.0fs)" % (len(written), len(unchecked), time.time() - t0))
+    ctx.log("gfortran: %d written + %d unchecked texts, %d redundant instances not compiled (%.0fs)"
+            % (len(written), len(all_unchecked), n_skipped, time.time() - t0))
 
     # ---- 5. the property itself, on what PSyclone wrote with its checks on
     n_viol_before = len(ctx.violations)
@@ -482,13 +500,15 @@ def run(ctx):
         tree = f["tree"]
         wfk = spec.wf_keys(tree)
         cck = spec.cc_keys(tree)
-        acc, msg = f["gf"]
+        compiled_f = f["gf"] is not None
+        acc, msg = f["gf"] if compiled_f else (None, "not compiled (redundant instance of an already compiled key set)")
         nontriv = f["accepted"] > 0
         ctx.count(tree, nontriv)
         ctx.hist("written_tree_source", f["source"].split(":")[0])
-        ctx.hist("gfortran", "accepted" if acc else "rejected")
+        if compiled_f:
+            ctx.hist("gfortran", "accepted" if acc else "rejected")
         fails = list(wfk)
-        if not acc:
+        if compiled_f and not acc:
             fails += cck if cck else ["gfortran/unmodelled/" + re.sub(r"[^A-Za-z]+", "-", msg)[:60]]
         if acc and cck and not spec.acc_intervening(tree):
             spec_bad.append({"tree": tree, "cc": cck, "text": f["text"]})
@@ -535,7 +555,8 @@ def run(ctx):
             cc_incomplete += 1
             ctx.hist("cc_incomplete", re.sub(r"[^A-Za-z]+", "-", msg)[:50])
     ctx.notes["compiler_spec_validation"] = {
-        "trees_compiled": len(written) + len(unchecked), "spec_rejects_but_gfortran_accepts": len(spec_bad),
+        "trees_compiled": len(compiled), "redundant_instances_not_compiled": n_skipped,
+        "spec_rejects_but_gfortran_accepts": len(spec_bad),
         "gfortran_rejects_unchecked_tree_without_modelled_reason": cc_incomplete}
     if spec_bad:
         ctx.violation({"property": "C10", "broken": "validation of coq/C10/Compiler.v (cc_viol) against gfortran: the "
@@ -609,15 +630,16 @@ def run(ctx):
                 f = by_hist.get(steps[i].get("hist"))
                 if f is None:
                     continue
-                fails = spec.wf_keys(f["tree"]) + (spec.cc_keys(f["tree"]) if not f["gf"][0] else [])
-                if not f["gf"][0] and not fails:
+                gfv = f["gf"] or (None, "not compiled")
+                fails = spec.wf_keys(f["tree"]) + (spec.cc_keys(f["tree"]) if gfv[0] is False else [])
+                if gfv[0] is False and not fails:
                     fails = ["gfortran/unmodelled"]
                 if fails:
                     ctx.violation({"property": "C10", "what": "a transformation step that the model of the unchanged code refuses is "
                                    "accepted by the implementation, and the history ends in a written tree violating the property",
                                    "step": {"before": steps[i]["before"], "op": op_json(steps[i]["op"]), "impl_verdict": steps[i]["verdict"]},
                                    "failing_keys": fails, "final_tree": f["tree"], "written_code": f["text"],
-                                   "gfortran_accepted": f["gf"][0], "gfortran_message": f["gf"][1], "skeleton": f["skeleton"],
+                                   "gfortran_accepted": gfv[0], "gfortran_message": gfv[1], "skeleton": f["skeleton"],
                                    "source_fortran": impl.source_of(f["skeleton"]), "ops": f["log"],
                                    "how": "props/C10/impl.py: read(skeleton); apply_op for each op; write(); gfortran -fopenmp -fopenacc -S"})
                     found_concrete = True
